@@ -9,10 +9,22 @@
  *                                  | SUCCEEDED-DESPITE-FAILURE draws=<k> out=<hex prefix>
  *   det    <op> <seed>            same stream and clock twice -> SAME bytes=<n> digest=<sm3> | DIFFERENT
  *   fresh  <op> <seed1> <seed2>   different streams -> DISTINCT | SAME-EPHEMERAL eph=<hex> | NOEPH
+ *   eint   <op> <seed> <i> <EINTR|EAGAIN|EIO|ENOSYS|untouched> <k>
+ *                                 the next k attempts at draw i fail with that errno (destination poisoned), then the
+ *                                 source works again and serves the same bytes as in the healthy run
+ *                                 -> EQUAL (success, output identical to the healthy run) | FAILED rc=<r> (reported failure)
+ *                                  | DIVERGED rc=1 poison=<longest 0xA5 run> ... (success with bytes the script never served)
+ *   recover <sm2_sign_ctx|sm2_enc_ctx|op> <seed> <pre> <failrel> <post>
+ *                                 one context / one stream: <pre> operations, then the <failrel>-th draw from here fails
+ *                                 during one more attempt, then the source is healthy again and <post> more operations
+ *                                 follow on the SAME context: every ephemeral value produced before and after the failure
+ *                                 must be pairwise distinct and every later operation must still succeed and verify
+ *                                 -> FRESH ops=<n> attempt=<rc> draws=<d> | REUSE i=<a> j=<b> | BROKEN at=<i> rc=<r>
  *   repeat <op> <seed> <count>    count operations in one stream: ephemeral values and the drawn
  *                                 32-byte nonces (replayed from the entropy log) pairwise distinct
  *                                 -> DISTINCT count=<c> draws=<d> nonces=<m> | REUSE what=<eph|nonce> i=<a> j=<b>
  */
+#include "entwrap.h"
 #include "sysops.h"
 
 static int op_sm2_sign_ctx_multi(opctx_t *c, obuf_t *o) {
@@ -85,6 +97,59 @@ static int run_once(const sysop_t *op, uint64_t stream_seed, long failat, obuf_t
 }
 static int cmp32(const void *a, const void *b) { return memcmp(a, b, 32); }
 
+/* ---- one context, one stream, a failure in the middle, then the source is healthy again ---------------- */
+typedef struct { SM2_SIGN_CTX sign; SM2_ENC_CTX enc; } ctxs_t;
+static int ctx_step(const char *kind, const sysop_t *op, ctxs_t *x, obuf_t *o, uint8_t eph[32]) {
+	/* one operation on the persistent context; eph = digest of its ephemeral public value; 1 on success */
+	SM3_CTX h3; int rc;
+	if (!strcmp(kind, "sm2_sign_ctx")) {
+		uint8_t sig[SM2_MAX_SIGNATURE_SIZE]; size_t sl = 0; SM2_SIGNATURE s; const uint8_t *p = sig; size_t l;
+		if (sm2_sign_reset(&x->sign) != 1 || sm2_sign_update(&x->sign, C->msg, C->msglen) != 1) return -9;
+		if (sm2_sign_finish(&x->sign, sig, &sl) != 1) return -1;
+		l = sl; if (sm2_signature_from_der(&s, &p, &l) != 1) return -2;
+		{ SM2_VERIFY_CTX vc; if (sm2_verify_init(&vc, &C->sm2, SM2_DEFAULT_ID, SM2_DEFAULT_ID_LENGTH) != 1 || sm2_verify_update(&vc, C->msg, C->msglen) != 1
+			|| sm2_verify_finish(&vc, sig, sl) != 1) return -2; }
+		sm3_init(&h3); sm3_update(&h3, s.r, 32); sm3_finish(&h3, eph);          /* same message: equal nonce <=> equal r */
+		return 1;
+	}
+	if (!strcmp(kind, "sm2_enc_ctx")) {
+		uint8_t ct[SM2_MAX_CIPHERTEXT_SIZE]; size_t cl = sizeof ct; uint8_t pt[SM2_MAX_PLAINTEXT_SIZE]; size_t pl = 0;
+		if (sm2_encrypt_reset(&x->enc) != 1 || sm2_encrypt_update(&x->enc, C->msg, C->msglen) != 1) return -9;
+		if (sm2_encrypt_finish(&x->enc, &C->sm2, ct, &cl) != 1) return -1;
+		if (sm2_decrypt(&C->sm2, ct, cl, pt, &pl) != 1 || pl != C->msglen || memcmp(pt, C->msg, pl)) return -2;
+		sm3_init(&h3); sm3_update(&h3, ct, cl < 70 ? cl : 70); sm3_finish(&h3, eph);   /* C1 */
+		return 1;
+	}
+	o->n = 0; C->ephlen = 0;
+	rc = op->run(C, o);
+	if (rc == 1) { sm3_init(&h3); sm3_update(&h3, C->eph, C->ephlen); sm3_finish(&h3, eph); }
+	return rc;
+}
+static void do_recover(char **w) {
+	const char *kind = w[1]; const sysop_t *op = find_op2(kind); uint64_t seed = strtoull(w[2], NULL, 10);
+	int pre = atoi(w[3]), post = atoi(w[5]), i, j, n = 0, attempt; long failrel = atol(w[4]);
+	ctxs_t *x = malloc(sizeof *x); obuf_t o; uint8_t (*eph)[32]; int rc;
+	int is_ctx = !strcmp(kind, "sm2_sign_ctx") || !strcmp(kind, "sm2_enc_ctx");
+	if ((!is_ctx && !op) || pre < 0 || post < 0 || pre + post > 4000) { printf("ERR usage"); free(x); return; }
+	prep(seed >> 8); ob_init(&o);
+	if (op && op->heavy) prepare9(C);
+	eph = malloc((size_t)(pre + post + 2) * 32);
+	ent_seed(seed, -1); ent_clock(1700000000);
+	if (!strcmp(kind, "sm2_sign_ctx") && sm2_sign_init(&x->sign, &C->sm2, SM2_DEFAULT_ID, SM2_DEFAULT_ID_LENGTH) != 1) { printf("ERR init"); goto done; }
+	if (!strcmp(kind, "sm2_enc_ctx") && sm2_encrypt_init(&x->enc) != 1) { printf("ERR init"); goto done; }
+	for (i = 0; i < pre; i++) { rc = ctx_step(kind, op, x, &o, eph[n]); if (rc != 1) { printf("BROKEN at=%d rc=%d phase=before", i, rc); goto done; } n++; }
+	ent.fail_at = ent.draws + failrel;                                     /* the failing draw, relative to here */
+	attempt = ctx_step(kind, op, x, &o, eph[n]);
+	if (attempt == 1) n++;                                                 /* the failing draw was not reached: an ordinary operation */
+	else if (attempt == -2) { printf("BROKEN at=%d rc=-2 phase=failing-attempt (success reported, output invalid)", pre); goto done; }
+	ent.fail_at = -1;                                                      /* the source is healthy again */
+	for (i = 0; i < post; i++) { rc = ctx_step(kind, op, x, &o, eph[n]); if (rc != 1) { printf("BROKEN at=%d rc=%d phase=after", pre + 1 + i, rc); goto done; } n++; }
+	for (i = 0; i < n; i++) for (j = 0; j < i; j++) if (!memcmp(eph[i], eph[j], 32)) { printf("REUSE i=%d j=%d of=%d attempt=%d", j, i, n, attempt); goto done; }
+	printf("FRESH ops=%d attempt=%d draws=%ld", n, attempt, ent.draws);
+done:
+	free(eph); free(x); ob_free(&o);
+}
+
 static void handle(size_t nw, char **w) {
 	const sysop_t *op; uint64_t seed; obuf_t o; long draws; size_t bytes; int rc;
 	alarm(nw >= 1 && !strcmp(w[0], "repeat") ? 300 : 40);      /* an operation that spins (e.g. retries for ever on a dead source) is killed and reported as a fault */
@@ -99,6 +164,7 @@ static void handle(size_t nw, char **w) {
 		free(b);
 		return;
 	}
+	if (nw == 6 && !strcmp(w[0], "recover")) { do_recover(w); return; }
 	if (nw < 3 || !(op = find_op2(w[1]))) { printf("ERR usage"); return; }
 	seed = strtoull(w[2], NULL, 10);
 	prep(seed >> 8);                                           /* 256 stream seeds share one key set */
@@ -134,6 +200,22 @@ static void handle(size_t nw, char **w) {
 		else if (draws == 0 || l1 == 0) printf("NOEPH draws=%ld", draws);
 		else if (l1 == C->ephlen && !memcmp(e1, C->eph, l1)) { printf("SAME-EPHEMERAL draws=%ld eph=", draws); puthex(e1, l1 < 40 ? l1 : 40); }
 		else printf("DISTINCT draws=%ld", draws);
+	} else if (!strcmp(w[0], "eint") && nw == 6) {
+		obuf_t o2; long d2; size_t b2; int rc2; long i = atol(w[3]); int k = atoi(w[5]);
+		ob_init(&o2);
+		rc = run_once(op, seed, -1, &o, &draws, &bytes);                  /* the healthy reference */
+		C->nsec = 0;
+		if (op->heavy) prepare9(C);
+		ent_seed(seed, -1); ent_clock(1700000000); errno = 0;
+		entfault_set(i, k, errno_of_name(w[4]));
+		rc2 = op->run(C, &o2); d2 = ent.draws; b2 = ent.total;
+		entfault_clear();
+		if (rc != 1) printf("ERR reference rc=%d", rc);
+		else if (i >= draws) printf("NOTREACHED draws=%ld", draws);
+		else if (rc2 == 1 && o.n == o2.n && !memcmp(o.p, o2.p, o.n) && d2 == draws && b2 == bytes) printf("EQUAL rc=1 draws=%ld attempts-failed=%ld", d2, entfault.failed_attempts);
+		else if (rc2 == 1 || rc2 == -2) { printf("DIVERGED rc=%d poison=%zu draws=%ld/%ld attempts-failed=%ld out=", rc2, poison_run(o2.p, o2.n), d2, draws, entfault.failed_attempts); puthex(o2.p, o2.n < 48 ? o2.n : 48); }
+		else printf("FAILED rc=%d draws=%ld attempts-failed=%ld", rc2, d2, entfault.failed_attempts);
+		ob_free(&o2);
 	} else if (!strcmp(w[0], "repeat") && nw == 4) {
 		int count = atoi(w[3]), i, bad = 0; uint8_t (*ephs)[32] = malloc((size_t)count * 32); long nd; uint8_t (*non)[32]; long nn = 0, k;
 		if (op->heavy) prepare9(C);
